@@ -34,6 +34,10 @@ pub fn script(r: &mut Rng, n: usize) -> Script {
 pub fn btc_pk(r: &mut Rng) -> elements::bitcoin::PublicKey {
     elements::bitcoin::PublicKey::new(pools::pubkey(r))
 }
+/// a key in the 65-byte uncompressed form (still allowed in partial signatures and BIP32 derivations)
+pub fn btc_pk_uncompressed(r: &mut Rng) -> elements::bitcoin::PublicKey {
+    elements::bitcoin::PublicKey::new_uncompressed(pools::pubkey(r))
+}
 pub fn xonly(r: &mut Rng) -> elements::secp256k1_zkp::XOnlyPublicKey {
     pools::pubkey(r).x_only_public_key().0
 }
@@ -83,7 +87,8 @@ pub fn set_global_field(p: &mut Pset, f: &str, r: &mut Rng) {
             // a master key has depth 0: its key source must have an empty path
             p.global.xpub.insert(x, (x.fingerprint(), DerivationPath::from_str("m").unwrap()));
         }
-        "scalars" => { p.global.scalars.push(pools::tweak(r)); p.global.scalars.push(pools::tweak(r)); }
+        // three scalars, deliberately not in ascending order (their order is part of the value)
+        "scalars" => { let mut v = vec![pools::tweak(r), pools::tweak(r), pools::tweak(r)]; v.sort_by(|a, b| b.as_ref().cmp(a.as_ref())); p.global.scalars.extend(v); }
         "elements_tx_modifiable_flag" => p.global.elements_tx_modifiable_flag = Some(r.next_u32() as u8 & 1),
         "proprietary" => {
             p.global.proprietary.insert(ProprietaryKey { prefix: b"foo".to_vec(), subtype: 5, key: pools::rbytes(r, 3) }, pools::rbytes(r, 7));
@@ -98,12 +103,12 @@ pub fn set_input_field(i: &mut Input, f: &str, r: &mut Rng) {
     match f {
         "non_witness_utxo" => i.non_witness_utxo = Some(small_tx(r)),
         "witness_utxo" => i.witness_utxo = Some(explicit_txout(r)),
-        "partial_sigs" => { i.partial_sigs.insert(btc_pk(r), pools::rbytes(r, 71)); }
+        "partial_sigs" => { i.partial_sigs.insert(btc_pk(r), pools::rbytes(r, 71)); i.partial_sigs.insert(btc_pk_uncompressed(r), pools::rbytes(r, 72)); }
         // raw values: taproot default (0), the standard flags, and values no enum names (the field is a plain u32 on the wire)
         "sighash_type" => i.sighash_type = Some(elements::pset::PsbtSighashType::from_u32([0x00u32, 0x01, 0x02, 0x83, 0x04, 0x41, 0xff, 0x100, 0x8000_0001][(r.next_u32() % 9) as usize])),
         "redeem_script" => i.redeem_script = Some(script(r, 23)),
         "witness_script" => i.witness_script = Some(script(r, 40)),
-        "bip32_derivation" => { i.bip32_derivation.insert(btc_pk(r), keysource(r, 3)); }
+        "bip32_derivation" => { i.bip32_derivation.insert(btc_pk(r), keysource(r, 3)); i.bip32_derivation.insert(btc_pk_uncompressed(r), keysource(r, 1)); }
         "final_script_sig" => i.final_script_sig = Some(script(r, 30)),
         "final_script_witness" => i.final_script_witness = Some(vec![pools::rbytes(r, 72), vec![], pools::rbytes(r, 33)]),
         "ripemd160_preimages" => { let pre = pools::rbytes(r, 32); i.ripemd160_preimages.insert(ripemd160::Hash::hash(&pre), pre); }
